@@ -39,7 +39,7 @@ class FnSpec:
     def __init__(self, qual, params=None, returns=None, requires=(), ensures=(), raises=None,
                  modifies=(), loops=None, ghost_entry=(), ghost_exit=(), inline=False,
                  pure=False, lets=None, on_raise=(), properties=(), trusted=False, note=None,
-                 locals=None, decreases=None, opaque_result=False, call_inline=False, cases=None, lemmas=(), ghost_params=None):
+                 locals=None, decreases=None, opaque_result=False, call_inline=False, cases=None, lemmas=(), ghost_params=None, region=None, of=None):
         self.qual = qual
         self.params = {k: ty.parse_type(v) for k, v in (params or {}).items()}
         self.returns = ty.parse_type(returns) if returns else None
@@ -56,6 +56,8 @@ class FnSpec:
         self.inline = inline
         self.cases = cases or [{}]          # parameter bindings to Python constants: one verification per case
         self.lemmas = list(lemmas)
+        self.region = region      # (start, end): verify only the top-level statements from the first one whose source starts with `start` to the one starting with `end`
+        self.of = of              # the real function a region contract belongs to
         self.ghost_params = {k: ty.parse_type(v) for k, v in (ghost_params or {}).items()}   # logical (universally quantified) parameters          # names of proved lemmas assumed in this function's queries
         self.call_inline = call_inline     # verified against its contract, but inlined at call sites (dimension-generic helpers)
         self.pure = pure
